@@ -300,11 +300,18 @@ var table = map[string]func(int) int{
 	wantErr["huge/h.go"] = "oversize"
 	w("empty/e.go", "")
 	wantErr["empty/e.go"] = "empty file"
+	// a source file that is a link to nothing (a checkout without its submodule, a removed generated file)
+	if err == nil {
+		if err = os.MkdirAll(filepath.Join(root, "gone"), 0o755); err == nil {
+			err = os.Symlink(filepath.Join(root, "nowhere", "target.go"), filepath.Join(root, "gone", "lost.go"))
+		}
+	}
+	wantErr["gone/lost.go"] = "dangling link"
 	return wantErr, err
 }
 
 func suiteWalk(c *Ctx) error {
-	c.Res.Rule = "A: random directory trees (depth <= 4; file names a.go, *_test.go, _test.go, .hidden.go, c.GO, .go, vendor…; directory names pkg, vendor, .git, ..x, v.go, _test.go, Vendor…) on disk: cli.CollectFiles == Lean walker == declarative oracle (same paths, same order). B: generated modules with nested packages, methods (value/pointer/generic receivers), closures (nested), generic functions, package-level function literals, init, test-named files, vendor/hidden directories, and five kinds of unanalysable file: every go/parser FuncDecl-with-body and FuncLit of every collected file must be reported with its file and line; every collected file has exactly one output; unanalysable files carry an error; strict mode fails iff some file has an error; non-trivial = tree has at least one excluded and one collected file; distinct by tree"
+	c.Res.Rule = "A: random directory trees (depth <= 4; file names a.go, *_test.go, _test.go, .hidden.go, c.GO, .go, vendor…; directory names pkg, vendor, .git, ..x, v.go, _test.go, Vendor…) on disk: cli.CollectFiles == Lean walker == declarative oracle (same paths, same order). B: generated modules with nested packages, methods (value/pointer/generic receivers), closures (nested), generic functions, package-level function literals, init, test-named files, vendor/hidden directories, and six kinds of unanalysable file (syntax error, type error, excluded by build constraint, oversize, empty, a link to nothing): every go/parser FuncDecl-with-body and FuncLit of every collected file must be reported with its file and line; every collected file has exactly one output; unanalysable files carry an error; strict mode fails iff some file has an error; non-trivial = tree has at least one excluded and one collected file; distinct by tree"
 	n := c.N
 	if n == 0 {
 		n = 150
